@@ -4,15 +4,22 @@ from ..common import short
 from ..gen import blocks as B
 from ..oracles import elided as E
 
+import re
+
 PROP = 'C06'
+_NUM = re.compile(r'[0-9]+')
 RULE = (
     "Descriptions of 1-6 elements {single lot | lot range | lot list | lot "
     "with (acreage)/[acreage] | aliquot-of-lot(s) | aliquot chain in plain "
     "spellings | ALL} joined by one separator from {', ', '; ', ',\\n', "
     "';\\n', '\\n'} under configs {default, suppress_lot_divs, qq_depth.1, "
     "qq_depth_min.3, clean_qq, qq_depth_min.1+max.2, break_halves}, the "
-    "settings handed over by config string, by parse() keywords, or by "
-    "keywords over a Tract config that says the opposite. Oracle: "
+    "settings handed over by config string, by parse() keywords, by "
+    "keywords over a Tract config that says the opposite, or by keywords "
+    "after two committed parses of the same Tract under other settings "
+    "(depth 1, divisions suppressed). Divided lots carry stated acreages in "
+    "a third of the cases (direct model: the acreage belongs to the lot "
+    "whether or not the division is reported). Oracle: "
     "lots / qqs of the whole == concatenation of what each element yields "
     "alone (the library itself on the element; lots, lot ranges and lot "
     "divisions additionally against a direct model), lots_qqs == lots + qqs, "
@@ -32,7 +39,7 @@ ASSUMPTIONS = [
 MIN_NONTRIVIAL = {'quick': 15000, 'thorough': 350000}
 REQUIRED_MONITORS = ['boundary:whole', 'boundary:element', 'model:element',
                      'dup-flag', 'channel:config', 'channel:keyword',
-                     'channel:contrary-config']
+                     'channel:contrary-config', 'channel:reparse']
 
 SEPS = [', ', '; ', ',\n', ';\n', '\n']
 CONFIGS = ['', '', 'suppress_lot_divs', 'qq_depth.1', 'qq_depth_min.3',
@@ -94,10 +101,26 @@ def gen_element(rng):
             nums, ltxt = list(range(a, a + 3)), f"Lots {a} - {a + 2}"
         else:
             nums, ltxt = [a, a + 3], f"Lots {a} and {a + 3}"
-        return k, f"{atxt} of {ltxt}", {
-            'lots': [f"{name} of L{n}" for n in nums],
-            'lots_suppressed': [f"L{n}" for n in nums],
-            'ltxt': ltxt, 'nums': nums}
+        model = {'lots': [f"{name} of L{n}" for n in nums],
+                 'lots_suppressed': [f"L{n}" for n in nums],
+                 'ltxt': ltxt, 'nums': nums}
+        written = ltxt
+        if rng.random() < 0.3:
+            # the divided lots carry stated acreages (the written numbers
+            # only: a range names its two ends); they belong to the lot
+            # whether or not the division is reported
+            acres = {}
+
+            def with_acres(m):
+                ac = f"{rng.randint(10, 45)}.{rng.randint(0, 99):02d}"
+                if rng.random() < 0.7:
+                    acres[f"L{m.group(0)}"] = ac
+                    br = rng.choice(['()', '[]'])
+                    return f"{m.group(0)}{rng.choice(['', ' '])}{br[0]}{ac}{br[1]}"
+                return m.group(0)
+            written = _NUM.sub(with_acres, ltxt)
+            model['acres'] = acres
+        return k, f"{atxt} of {written}", model
     if k == 'ALL':
         return k, 'ALL', None
     n = rng.choice([1, 1, 2, 2, 3])
@@ -110,7 +133,8 @@ def gen_element(rng):
 
 
 _BOOLS = ('clean_qq', 'suppress_lot_divs', 'break_halves')
-CHANNELS = ['config', 'config', 'config', 'keyword', 'contrary-config']
+CHANNELS = ['config', 'config', 'config', 'keyword', 'contrary-config',
+            'reparse']
 _CHANNEL = ['config']       # channel of the case being judged
 
 
@@ -135,9 +159,15 @@ def parse(pytrs, text, cfg):
     else:
         kw = _keywords(cfg)
         own = None
-        if channel == 'contrary-config':
+        if channel in ('contrary-config', 'reparse'):
             own = ','.join(f"{b}.{not kw[b]}" for b in _BOOLS)
         t = pytrs.Tract(text, config=own)
+        if channel == 'reparse':
+            # two committed parses under other settings first (depth 1 and
+            # divisions suppressed make repeats, hence dup warnings, likely);
+            # the committed parse that follows replaces all of it
+            t.parse(qq_depth=1, suppress_lot_divs=True)
+            t.parse(qq_depth=1, suppress_lot_divs=True)
         if len(text) % 3 == 0:
             # a what-if parse first (the opposite booleans, another depth),
             # not committed: the committed parse is unaffected by it
